@@ -92,6 +92,7 @@ def main(argv=None):
         return do_replay(mod, pid, a.replay)
 
     os.environ['VERIF_TIER_EFFECTIVE'] = tier
+    os.environ.setdefault('VERIF_CROSS_EVERY', '100' if tier == 'quick' else '25')
     specs = mod.specs(tier, seed)
     if a.only:
         specs = [s for s in specs if a.only in repr(s)]
@@ -122,7 +123,7 @@ def finish(mod, pid, tier, seed, results, t0, a):
     open_keys = {e['key']: e for e in known if e.get('status') == 'open'}
     agg = dict(paths=0, ok_paths=0, exc_paths=0, pruned=0, unsupported=0, domain=0, obligations=0,
                discharged=0, discharged_exact=0, discharged_robust=0, validated=0, validation_boundary=0)
-    stats = dict(queries=0, solver_s=0.0, unknown=0, branches=0)
+    stats = dict(queries=0, solver_s=0.0, unknown=0, branches=0, cross_agree=0, cross_disagree=0, cross_undecided=0)
     triggers = {}
     funcs = set()
     samples = []
@@ -198,6 +199,8 @@ def finish(mod, pid, tier, seed, results, t0, a):
             queries=stats['queries'] + int(extra.get('queries', 0)),
             solver_s=round(stats['solver_s'] + float(extra.get('solver_s', 0.0)), 3),
             unknown=stats['unknown'] + int(extra.get('unknown', 0)),
+            cross_solver=dict(every=int(os.environ.get('VERIF_CROSS_EVERY', '0') or 0), agree=stats['cross_agree'],
+                              disagree=stats['cross_disagree'], cvc5_undecided=stats['cross_undecided']),
             configurations=len(results),
             triggers_witnessed=triggers,
             functions_encoded=sorted(funcs),
